@@ -74,6 +74,7 @@ type world struct {
 	oracleMode int
 	p2pTx      []string
 	lastQuery  map[string]int
+	oracleHits [3]int       // nonce queries that met the oracle in each mode since the last flush
 	sched      *simrt.Sched // set during a concurrent phase: the blockchain stub parks before answering
 	parkExec   bool         // ... and the execs stub too
 	parkN      int
@@ -274,6 +275,7 @@ func (w *world) onRPC(c queue.Client, msg *queue.Message) {
 	mode := w.oracleMode
 	n := w.evmNonce[strings.ToLower(req.Addr)]
 	w.lastQuery["nonce"]++
+	w.oracleHits[mode]++
 	w.mu.Unlock()
 	switch mode {
 	case oracleAnswers:
@@ -528,10 +530,26 @@ func (w *world) expired(b *built) (bool, int) {
 // ---------------------------------------------------------------------------
 // observation
 
+// flushFaults reports injected faults that actually fired (the nonce oracle
+// failing or staying silent when the pool asked) to the run's counters.
+func (w *world) flushFaults() {
+	w.mu.Lock()
+	h := w.oracleHits
+	w.oracleHits = [3]int{}
+	w.mu.Unlock()
+	for i := 0; i < h[oracleError]; i++ {
+		w.ctx.Fault("nonce_oracle_error")
+	}
+	for i := 0; i < h[oracleSilent]; i++ {
+		w.ctx.Fault("nonce_oracle_silent")
+	}
+}
+
 // observe reads the pool's contents (invariant view) and updates the model:
 // which entries appeared and disappeared since the last observation.
 func (w *world) observe(tBefore int64) (v *mem.VerifView, appeared, gone []string) {
 	simrt.Settle()
+	w.flushFaults()
 	v = w.pool.VerifInvariantView()
 	now := time.Now().Unix()
 	cur := map[string]bool{}
